@@ -59,7 +59,7 @@ var c05Tokens = []string{
 
 var c05Bytes = []string{
 	`"`, `\`, "n", "¬", "\xc2", "\xac", ";", "\n", "\r", "(", ")", "$", ":", "-", "0", "x", ".",
-	"\x00", "\xff", "ʞ", "\ufeff", "a", " ", "#", "{", "~", "@",
+	"\x00", "\xff", "ʞ", "\ufeff", "a", " ", "#", "{", "~", "@", ";; $MODULE m", ";; $x 1",
 }
 
 var c05PreLines = []string{
@@ -195,6 +195,10 @@ func init() {
 				sb.WriteString("\n")
 			}
 			sb.WriteString(body)
+			// a text may also end right after its last line, without a final newline
+			if body == "" && len(d) > 0 && d[len(d)-1]%2 == 0 {
+				return strings.TrimSuffix(sb.String(), "\n")
+			}
 			return sb.String()
 		}
 		var tier string
